@@ -17,7 +17,11 @@ try:
         for q, fn in align._defs(m.tree).items():
             if q in ref and ast.dump(fn) != ast.dump(ref[q]) and (not quals or f"{n}.{q}" in quals):
                 print("== DIFFERS:", n, q, m.normalised.get(q))
-                a = summarise_block(fn.body, live=set()); b = summarise_block(ref[q].body, live=set())
+                import copy
+                from hsa.inline import inline_local_closures
+                c2, r2 = copy.deepcopy(fn), copy.deepcopy(ref[q])
+                print("   closures inlined (cur, ref):", inline_local_closures(c2), inline_local_closures(r2))
+                a = summarise_block(c2.body, live=set()); b = summarise_block(r2.body, live=set())
                 if a is None or b is None:
                     print("   too many paths", a is None, b is None); continue
                 from hsa.paths import canon_trace, Path
